@@ -71,5 +71,5 @@ def bits_controls(ctx):
 def cancellation_controls(ctx):
     from rules import cancellation
     fx = ctx.fixtures()
-    res = {fn: bool(cancellation.scan_function(fx, fn)) for fn in ("shs_half_angle", "shs_one_minus_cos", "polar_radius_half_angle", "polar_radius_one_minus_sin")}
-    ctx.control("cancellation-lint-on-fixtures", res == {"shs_half_angle": False, "shs_one_minus_cos": True, "polar_radius_half_angle": False, "polar_radius_one_minus_sin": True}, "got %s" % res)
+    res = {fn: bool(cancellation.scan_function(fx, fn)) for fn in ("shs_half_angle", "shs_one_minus_cos", "polar_radius_half_angle", "polar_radius_one_minus_sin", "ang_dist_atan2", "ang_dist_acos")}
+    ctx.control("cancellation-lint-on-fixtures", res == {"shs_half_angle": False, "shs_one_minus_cos": True, "polar_radius_half_angle": False, "polar_radius_one_minus_sin": True, "ang_dist_atan2": False, "ang_dist_acos": True}, "got %s" % res)
